@@ -52,7 +52,9 @@ var c15Pkgs = []c15Pkg{
 	{":name", func(string) string { return ":custom" }, "custom"},
 }
 
-var c15Existing = []string{"none", "same-name", "other-name"}
+// other-name-broken: the existing package of another name does not type-check while goverter runs (in practice a
+// hand-written file that uses the not-yet-generated code); its name must still be taken over
+var c15Existing = []string{"none", "same-name", "other-name", "other-name-broken"}
 
 var c15Invocations = []string{"root", "chdir", "cwd-flag"}
 
@@ -131,6 +133,10 @@ func RunC15(run *ev.Run) {
 			mu.Lock()
 			run.Outcome(outcome)
 			for _, p := range probs {
+				// C01 runs the same product for its compile clause only
+				if run.Prop == "C01" && p.Symptom != "module-does-not-build" && p.Symptom != "output-does-not-parse" {
+					continue
+				}
 				run.Report(p)
 			}
 			if c.id%37 == 0 {
@@ -147,10 +153,13 @@ func RunC15(run *ev.Run) {
 	run.Cov["traces_validated_against_impl"] = len(cases)
 	run.Cov["exhaustive"] = true
 	// across input packages: where a package's converter lands must not depend on a sibling package of the same run
-	nx := RunXConvFiltered(run, "output-")
+	nx := 0
+	if run.Prop == "C15" {
+		nx = RunXConvFiltered(run, "output-")
+	}
 	run.Cov["cross_package_runs"] = nx
 	run.Cov["evaluations"] = len(cases) + nx
-	run.Cov["rule"] = "product of output:file {absent, ./x/y.go, ../gen/z.go, same directory, no ./ prefix, absolute, @cwd/..., directory name needing normalisation} x output:package {absent, PATH, PATH:NAME, :NAME} x target package {absent, existing with the same name, existing with another name} x invocation {module root, chdir into the package, -cwd} plus multi-converter shapes {two converters one file, two converters one file with different packages (must fail), two files in one package, interface + variables block}; the real CLI runs with umask 0 on a scratch module; oracle: the set of created/changed paths equals the independently predicted set, package clause as predicted (configured name, else existing package, else normalised directory name), new files 0644, new directories 0755, merged files parse and the module builds; across input packages: a package whose output directory holds an existing package of another name, referenced by a sibling package through extend / map|FUNC / default, gets byte-identical files in the joint run and when generated alone"
+	run.Cov["rule"] = "product of output:file {absent, ./x/y.go, ../gen/z.go, same directory, no ./ prefix, absolute, @cwd/..., directory name needing normalisation} x output:package {absent, PATH, PATH:NAME, :NAME} x target package {absent, existing with the same name, existing with another name, existing with another name and not type-checking} x invocation {module root, chdir into the package, -cwd} plus multi-converter shapes {two converters one file, two converters one file with different packages (must fail), two files in one package, interface + variables block}; the real CLI runs with umask 0 on a scratch module; oracle: the set of created/changed paths equals the independently predicted set, package clause as predicted (configured name, else existing package, else normalised directory name), new files 0644, new directories 0755, merged files parse and the module builds; across input packages: a package whose output directory holds an existing package of another name, referenced by a sibling package through extend / map|FUNC / default, gets byte-identical files in the joint run and when generated alone"
 }
 
 func c15Run(bin, root string, c c15Case) ([]ev.Violation, string) {
@@ -256,7 +265,7 @@ func c15Run(bin, root string, c c15Case) ([]ev.Violation, string) {
 	existingName := ""
 	if c.existing != "none" && targetDir != declDir {
 		existingName = normalisedDirName(truePath)
-		if c.existing == "other-name" {
+		if strings.HasPrefix(c.existing, "other-name") {
 			existingName = "othername"
 		}
 		d := targetDir
@@ -264,7 +273,11 @@ func c15Run(bin, root string, c c15Case) ([]ev.Violation, string) {
 			t[d] = fshist.Entry{Dir: true, Mode: 0o755}
 			d = path.Dir(d)
 		}
-		t[path.Join(targetDir, "doc.go")] = fshist.Entry{Data: []byte("package " + existingName + "\n"), Mode: 0o644}
+		doc := "package " + existingName + "\n"
+		if c.existing == "other-name-broken" {
+			doc += "\nvar _ = CImpl{}\n" // defined by the file goverter is about to write into this package
+		}
+		t[path.Join(targetDir, "doc.go")] = fshist.Entry{Data: []byte(doc), Mode: 0o644}
 	}
 	if targetDir == declDir {
 		existingName = "conv"
@@ -344,9 +357,9 @@ func c15Run(bin, root string, c c15Case) ([]ev.Violation, string) {
 		}
 	}
 	// 3. the module builds when the configuration is self-consistent
-	consistent := !(c.existing == "other-name" && c.pkg.pkgName != "") && !(targetDir == declDir && c.pkg.pkgName != "") &&
+	consistent := !(strings.HasPrefix(c.existing, "other-name") && c.pkg.pkgName != "") && (c.existing != "other-name-broken" || c.shape == "single") && !(targetDir == declDir && c.pkg.pkgName != "") &&
 		!(c.pkg.pkgName != "" && existingName != "" && existingName != c.pkg.pkgName)
-	if consistent && len(probs) == 0 {
+	if consistent {
 		br := drive.RunGo(root, 5*60e9, "build", "./...")
 		if br.Exit != 0 {
 			add("module-does-not-build", firstN(br.Stderr, 600))
